@@ -145,6 +145,16 @@ def parse_tla_value(s):
                     pos[0] += 2
                     return out
                 out.append(val())
+        if s[pos[0]] == "{":
+            # a set: returned as a list
+            pos[0] += 1
+            out = []
+            while True:
+                ws()
+                if s[pos[0]] == "}":
+                    pos[0] += 1
+                    return out
+                out.append(val())
         if s[pos[0]] == '"':
             j = pos[0] + 1
             buf = ""
